@@ -38,19 +38,34 @@ def zeroMeanFlat (N D : Nat) (Y : Array K) : Array K :=
   let means := (List.range D).map fun d => ((List.range N).foldl (fun s n => s + Y.getD (n * D + d) 0) 0) / (N : K)
   Array.ofFn fun (i : Fin (N * D)) => Y.getD i.1 0 - means.getD (i.1 % D) 0
 
+/-- the constants of the update rule -/
+structure Sched (K : Type) where
+  eta : K
+  gainAdd : K
+  gainMul : K
+  gainMin : K
+
+/-- … as `run` has them (regenerated) -/
+def Sched.asWritten : Sched K :=
+  ⟨ofPair Gen.TsneRun.eta, ofPair Gen.TsneRun.gainAdd, ofPair Gen.TsneRun.gainMul, ofPair Gen.TsneRun.gainMin⟩
+
+/-- … as specified (van der Maaten's reference implementation: learning rate 200, gains `+0.2` / `×0.8`, floor `0.01`) -/
+def Sched.spec : Sched K := ⟨ofPair (200, 1), ofPair (1, 5), ofPair (4, 5), ofPair (1, 100)⟩
+
 /-- the body of the main loop after the gradient `dC` has been computed: gains, gains floor, velocity, position,
     centring -/
-def updateStep (N D : Nat) (dC : Array K) (s : OptState K) : OptState K :=
+def updateStepWith (sc : Sched K) (N D : Nat) (dC : Array K) (s : OptState K) : OptState K :=
   let n := N * D
   let gains := Array.ofFn fun (i : Fin n) =>
     let gi := s.gains.getD i.1 0
-    let g' := if sgn (dC.getD i.1 0) ≠ sgn (s.uY.getD i.1 0) then gi + ofPair Gen.TsneRun.gainAdd
-              else gi * ofPair Gen.TsneRun.gainMul
-    if g' < ofPair Gen.TsneRun.gainMin then ofPair Gen.TsneRun.gainMin else g'
+    let g' := if sgn (dC.getD i.1 0) ≠ sgn (s.uY.getD i.1 0) then gi + sc.gainAdd else gi * sc.gainMul
+    if g' < sc.gainMin then sc.gainMin else g'
   let uY := Array.ofFn fun (i : Fin n) =>
-    s.momentum * s.uY.getD i.1 0 - ofPair Gen.TsneRun.eta * gains.getD i.1 0 * dC.getD i.1 0
+    s.momentum * s.uY.getD i.1 0 - sc.eta * gains.getD i.1 0 * dC.getD i.1 0
   let Y := Array.ofFn fun (i : Fin n) => s.Y.getD i.1 0 + uY.getD i.1 0
   ⟨zeroMeanFlat N D Y, uY, gains, s.momentum⟩
+
+def updateStep (N D : Nat) (dC : Array K) (s : OptState K) : OptState K := updateStepWith Sched.asWritten N D dC s
 
 /-- the factor by which the similarities are still exaggerated when iteration `iter` logs its error (the division
     happens in iteration `stopLyingIter`, before the log line of that iteration) -/
